@@ -82,65 +82,70 @@ def hx(b):
 # ----------------------------------------------------------------------------------------------------------
 # the contracts
 
-def check_unquoter(name, f, delims, s, b_in, d_in, levels, esc_in, viols, counts, obs):
-    def bad(clause, observed, expected):
-        viols[(clause, name)] = (observed, expected)
-
-    r = call(f, s)
-    counts.append("returns-str")
-    if r[0] != "ok" or not isinstance(r[1], str):
-        bad("returns-str", list(r) if r[0] != "ok" else repr(r[1]), "a str (the statement covers every string)")
-        return
-    out = r[1]
+def out_facts(s, out, d_in, levels, esc_in):
+    """violations of the clauses that depend on the returned string only (shared by the four unquoters,
+    which mostly return the same string): list of (clause, observed, expected), and the C1 observation flag"""
+    bad = []
     d_out = R.dec1(R.utf8(out))
-
-    counts.append("decodes-same-bytes")
     if d_out != d_in:
-        bad("decodes-same-bytes", out, "a string that percent-decodes to the bytes %s (the output decodes to %s)" % (hx(d_in), hx(d_out)))
-
-    counts.append("no-raw-space")
+        bad.append(("decodes-same-bytes", out, "a string that percent-decodes to the bytes %s (the output decodes to %s)" % (hx(d_in), hx(d_out))))
+        if len(levels) > 1 and d_out in levels[1:]:
+            bad.append(("no-double-decode", out, "decodes to %s like the input, not to %s (the input decoded %d times)" % (hx(d_in), hx(d_out), levels.index(d_out) + 1)))
     if " " in out:
-        bad("no-raw-space", out, "no raw space (spaces become %20)")
-
-    counts.append("no-new-control-char")
+        bad.append(("no-raw-space", out, "no raw space (spaces become %20)"))
     if R.C0_DEL.search(out):
         new = sorted(set(c for c in R.C0_DEL.findall(out) if out.count(c) > s.count(c)))
         if new:
-            bad("no-new-control-char", out, "no control character that was not raw in the input; introduced: %s" % ", ".join("U+%04X" % ord(c) for c in new))
-
-    if delims:
-        counts.append("delimiters-stay-escaped")
-        new = [c for c in delims if out.count(c) > s.count(c)]
-        if new:
-            bad("delimiters-stay-escaped", out, "escaped %s left escaped" % " ".join(repr(c) for c in new))
-
-    counts.append("no-new-escape")
+            bad.append(("no-new-control-char", out, "no control character that was not raw in the input; introduced: %s" % ", ".join("U+%04X" % ord(c) for c in new)))
     if "%" in out:
         extra = R.escape_bytes(out) - esc_in
         if extra.get(0x20, 0) <= s.count(" "):
             extra.pop(0x20, None)
         if extra:
-            bad("no-new-escape", out, "only escapes that are escapes of the input (and %%20 for raw spaces); new: %s" % " ".join("%%%02X" % x for x in sorted(extra)))
+            bad.append(("no-new-escape", out, "only escapes that are escapes of the input (and %%20 for raw spaces); new: %s" % " ".join("%%%02X" % x for x in sorted(extra))))
+    c1 = bool(R.C1.search(out)) and any(out.count(c) > s.count(c) for c in set(R.C1.findall(out)))
+    return bad, c1
 
+
+UNQ_CLAUSES = ("returns-str", "decodes-same-bytes", "no-raw-space", "no-new-control-char", "no-new-escape", "idempotent")
+
+
+def check_unquoter(name, f, delims, s, d_in, levels, esc_in, facts, viols, counts, obs):
+    r = call(f, s)
+    if r[0] != "ok" or not isinstance(r[1], str):
+        counts.append("returns-str")
+        viols[("returns-str", name)] = (list(r) if r[0] != "ok" else repr(r[1]), "a str (the statement covers every string)")
+        return
+    out = r[1]
+    counts.extend(UNQ_CLAUSES)
     if len(levels) > 1:
         counts.append("no-double-decode")
-        if d_out != d_in and d_out in levels[1:]:
-            bad("no-double-decode", out, "decodes to %s like the input, not to %s (the input decoded %d times)" % (hx(d_in), hx(d_out), levels.index(d_out) + 1))
+    fa = facts.get(out)
+    if fa is None:
+        fa = facts[out] = out_facts(s, out, d_in, levels, esc_in)
+    for clause, ob, ex in fa[0]:
+        viols[(clause, name)] = (ob, ex)
 
-    counts.append("idempotent")
-    r2 = call(f, out)
+    if delims:
+        counts.append("delimiters-stay-escaped")
+        new = [c for c in delims if out.count(c) > s.count(c)]
+        if new:
+            viols[("delimiters-stay-escaped", name)] = (out, "escaped %s left escaped" % " ".join(repr(c) for c in new))
+
+    # f(out) is the call already made when out == s
+    r2 = r if out == s else call(f, out)
     if r2 != ("ok", out):
-        bad("idempotent", {"f(x)": out, "f(f(x))": r2[1] if r2[0] == "ok" else list(r2)}, "f(f(x)) == f(x)")
+        viols[("idempotent", name)] = ({"f(x)": out, "f(f(x))": r2[1] if r2[0] == "ok" else list(r2)}, "f(f(x)) == f(x)")
 
     # observations on cases the statement leaves open: tallied, never flagged
-    if R.C1.search(out) and any(out.count(c) > s.count(c) for c in set(R.C1.findall(out))):
-        obs["c1-control-decoded:" + name] = obs.get("c1-control-decoded:" + name, 0) + 1
-    if name.endswith("_path") and out.count("/") > s.count("/"):
-        obs["slash-decoded-in-path"] = obs.get("slash-decoded-in-path", 0) + 1
-    if name.endswith("_auth_item") and any(out.count(c) > s.count(c) for c in "/?#"):
-        obs["authority-terminator-decoded-in-auth-item"] = obs.get("authority-terminator-decoded-in-auth-item", 0) + 1
-    if name.endswith("_query_item") and out.count("+") > s.count("+"):
-        obs["plus-decoded-in-query-item"] = obs.get("plus-decoded-in-query-item", 0) + 1
+    if fa[1]:
+        obs["c1-control-decoded:" + name] = 1
+    if delims == "?#" and out.count("/") > s.count("/"):
+        obs["slash-decoded-in-path"] = 1
+    elif delims == "@:" and (out.count("/") > s.count("/") or out.count("?") > s.count("?") or out.count("#") > s.count("#")):
+        obs["authority-terminator-decoded-in-auth-item"] = 1
+    elif delims == "&=#" and out.count("+") > s.count("+"):
+        obs["plus-decoded-in-query-item"] = 1
 
 
 def check_quote(s, d_in, viols, counts):
@@ -168,7 +173,7 @@ def check_quote(s, d_in, viols, counts):
     if d_out != d_in:
         bad("quote-decodes-same-bytes", out, "a string that percent-decodes to the bytes %s (the output decodes to %s)" % (hx(d_in), hx(d_out)))
     counts.append("quote-idempotent")
-    r2 = call(Q.safely_quote, out)
+    r2 = r if out == s else call(Q.safely_quote, out)
     if r2 != ("ok", out):
         bad("quote-idempotent", {"f(x)": out, "f(f(x))": r2[1] if r2[0] == "ok" else list(r2)}, "f(f(x)) == f(x)")
 
@@ -197,51 +202,93 @@ def check_upper(s, viols, counts):
         viols[("upper-only-hex-case-in-escapes", name)] = (out, msg)
 
 
-OBS = {}
+_INTERN = {}
+_EMPTY = {}
 
 
-@lru_cache(maxsize=400000)
+@lru_cache(maxsize=150000)
 def evaluate(s):
-    """all clauses of all functions on the input s -> (tuple of evaluated clause names, {(clause, function): (observed, expected)})"""
+    """all clauses of all functions on the input s ->
+    (tuple of evaluated clause names, {(clause, function): (observed, expected)}, observations)"""
     viols = {}
     counts = []
-    b_in = R.utf8(s)
-    d_in = R.dec1(b_in)
+    d_in = R.dec1(R.utf8(s))
     levels = [d_in] + R.dec_levels(d_in) if b"%" in d_in else [d_in]
     esc_in = R.escape_bytes(s)
     obs = {}
+    facts = {}
     for name, f, delims in UNQUOTERS:
-        check_unquoter(name, f, delims, s, b_in, d_in, levels, esc_in, viols, counts, obs)
+        check_unquoter(name, f, delims, s, d_in, levels, esc_in, facts, viols, counts, obs)
     check_quote(s, d_in, viols, counts)
     check_upper(s, viols, counts)
-    return tuple(counts), viols, obs
+    counts = tuple(counts)
+    # cache entries share their (few distinct) count tuples and the empty dicts
+    return _INTERN.setdefault(counts, counts), viols or _EMPTY, obs or _EMPTY
 
 
 def minimal_pairs(tokens, viols):
-    """(clause, function) pairs violated by the token sequence but by none of the sequences with one token removed"""
+    """(clause, function) pairs violated by the token sequence but by none of the sequences with one token removed
+    (last tokens first: those sub-sequences share the shard prefix and are in the cache)"""
     rest = set(viols)
-    for i in range(len(tokens)):
+    for i in range(len(tokens) - 1, -1, -1):
         rest -= evaluate("".join(tokens[:i] + tokens[i + 1:]))[1].keys()
         if not rest:
             break
     return rest
 
 
-def shrink(tokens, pair):
-    """greedy one-at-a-time deletion keeping `pair` violated"""
-    tokens = list(tokens)
+def shrink(units, pair, windows):
+    """greedy deletion of windows of consecutive units (largest first) keeping `pair` violated, to a fixpoint"""
+    units = list(units)
     changed = True
     while changed:
         changed = False
-        i = 0
-        while i < len(tokens):
-            cand = tokens[:i] + tokens[i + 1:]
-            if pair in evaluate("".join(cand))[1]:
-                tokens = cand
-                changed = True
-            else:
-                i += 1
-    return tokens
+        for w in windows:
+            i = 0
+            while i + w <= len(units):
+                cand = units[:i] + units[i + w:]
+                if pair in evaluate("".join(cand))[1]:
+                    units = cand
+                    changed = True
+                else:
+                    i += 1
+    return units
+
+
+def _byte_class(b):
+    if b == 0x25:
+        return "%"
+    if b == 0x20:
+        return "s"
+    if b < 0x20:
+        return "c"
+    if b == 0x7f:
+        return "x"
+    if b >= 0xc0:
+        return "L"
+    if b >= 0x80:
+        return "k"
+    c = chr(b)
+    if c in "0123456789abcdefABCDEF":
+        return "h"
+    return "d" if c in "/?#&=@:+" else "o"
+
+
+def shape(w):
+    """coarse shape of a witness: valid escapes by the class of their byte (E + % s c x L k h d o), other
+    characters by their own class (% h s u=non-ASCII c=control d=delimiter o=other); one witness is reported per shape"""
+    out = []
+    i = 0
+    hexpos = R.escape_hex_positions(w)
+    while i < len(w):
+        c = w[i]
+        if c == "%" and (i + 1) in hexpos:
+            out.append("E" + _byte_class(int(w[i + 1:i + 3], 16)))
+            i += 3
+            continue
+        out.append(_byte_class(ord(c)) if ord(c) < 0x80 else "u")
+        i += 1
+    return "".join(out)
 
 
 class Tally(object):
@@ -323,11 +370,21 @@ def random_worker(job):
             col.nontriv(zlib.crc32(s.encode("utf-8", "surrogatepass")))
         if shard == 0 and i < 3:
             col.sample({"random_input": s, "safely_unquote_path": call(Q.safely_unquote_path, s)[1], "safely_quote": call(Q.safely_quote, s)[1]})
+        found = []
         for pair in viols:
-            w = "".join(shrink(list("".join(shrink(tokens, pair))), pair))
-            if (pair, w) not in done:
-                done[(pair, w)] = 1
-                ta.record(pair, w, "shrunk from a random input (token deletion, then character deletion)")
+            start = None
+            for w in found:
+                if pair in evaluate(w)[1]:
+                    start = list(w)
+                    break
+            if start is None:
+                start = list("".join(shrink(tokens, pair, (4, 2, 1))))
+            w = "".join(shrink(start, pair, (6, 3, 2, 1)))
+            if w not in found:
+                found.append(w)
+            if (pair, shape(w)) not in done:
+                done[(pair, shape(w))] = 1
+                ta.record(pair, w, "shrunk from a random input (deletion of tokens, then of characters)")
     return ta.finish()
 
 
@@ -356,7 +413,7 @@ def main():
     thorough = a.tier != "quick"
     maxlen = 5 if thorough else 4
     plen = 2 if thorough else 1
-    nrand = 1600000 if thorough else 48000
+    nrand = 640000 if thorough else 32000
     nshards = 64 if thorough else 16
     jobs = []
     # sequences shorter than the shard prefix are done by the shard of the empty prefix
@@ -378,8 +435,12 @@ def main():
         for k, n in part["obs"].items():
             obs[k] = obs.get(k, 0) + n
     allv.sort(key=lambda v: (len(v["input"]), v["input"], v["clause"], v["function"]))
+    shapes = set()
     for v in allv:
-        col.violation(v["clause"], v["function"], v["input"], v["observed"], v["expected"], v.get("note", ""))
+        k = (v["clause"], v["function"], shape(v["input"]))
+        if k not in shapes:
+            shapes.add(k)
+            col.violation(v["clause"], v["function"], v["input"], v["observed"], v["expected"], v.get("note", "") + "; shape " + k[2])
     for s in ["té%20 ", "%2541", "%4%41", "a b", "%E9", "%7F?%3F", "%c3%a9%zz"]:
         col.sample({"input": s, "safely_unquote_path": call(Q.safely_unquote_path, s)[1], "safely_quote": call(Q.safely_quote, s)[1],
                     "upper_quoted": call(Q.upper_quoted, s)[1]})
